@@ -38,6 +38,7 @@ def stmt_for(kind, name):
         'aliasclash': ['from os import path as %s, %s' % (name, name)],
         'future': ['from __future__ import annotations'],
         'globaldecl': ['global %s' % name, '%s = 1' % name],
+        'nonlocaldecl': ['nonlocal %s' % name, '%s = 1' % name],
     }[kind]
 
 
@@ -88,9 +89,11 @@ def render_row(row):
         elif scope == 'method':
             lines = ['class K:', '    def m(self):'] + ind(st, 2) + ['        return self']
         elif scope == 'nested':
-            lines = ['def outer():', '    def inner():'] + ind(st, 2) + ['        return 0', '    return inner']
+            pre = ['    %s = 0' % name] if kind == 'nonlocaldecl' else []
+            lines = ['def outer():'] + pre + ['    def inner():'] + ind(st, 2) + ['        return 0', '    return inner']
         elif scope == 'inmethod':
-            lines = ['class K:', '    def m(self):', '        def inner():'] + ind(st, 3) + ['            return 0', '        return inner']
+            pre = ['        %s = 0' % name] if kind == 'nonlocaldecl' else []
+            lines = ['class K:', '    def m(self):'] + pre + ['        def inner():'] + ind(st, 3) + ['            return 0', '        return inner']
     return '\n'.join(lines) + '\n', name
 
 
@@ -98,6 +101,9 @@ def own_position(source, name, kind):
     toks = list(tokenize.generate_tokens(io.StringIO(source).readline))
     if kind in ('dupimport', 'aliasclash'):
         return [list(t.start) for t in toks if t.type == tokenize.NAME and t.string == name][:2]
+    if kind == 'nonlocaldecl':
+        # both assignments (in the outer and in the nested function) bind the outer function's local; not the declaration
+        return [list(t.start) for i, t in enumerate(toks) if t.type == tokenize.NAME and t.string == name and toks[i - 1].string != 'nonlocal']
     return [own_position1(toks, name, kind)]
 
 
